@@ -116,17 +116,41 @@ def kani_cmd(plan, wdir, extra):
 MEM_GB_DEFAULT = {"quick": 12, "thorough": 32}   # thorough: kani-driver itself holds every check of thousands of harnesses for the JSON export
 
 
-def run_kani(plan, wdir, crate, tier):
+THOROUGH_CAP = int(os.environ.get("VERIF_THOROUGH_CAP", "2400"))
+
+
+def select_budget(plan, tier, seed):
+    """thorough tier: the generated catalogue of some properties has many thousand harnesses (hours of wall time). At most
+    THOROUGH_CAP `main` harnesses are decided per run - an even stride through the catalogue (which is ordered declaration-major),
+    rotated by VERIF_SEED; every sabotage twin, finding twin and best-effort harness always runs. The harnesses left out are
+    compiled but not decided in this run and are reported as `not-run` (count in the evidence). None = run everything."""
+    if tier != "thorough":
+        return None
+    mains = [h for h in plan.harnesses if h.kind == "main"]
+    if len(mains) <= THOROUGH_CAP:
+        return None
+    n = len(mains)
+    picked = {mains[((i * n) // THOROUGH_CAP + seed) % n].name for i in range(THOROUGH_CAP)}
+    return picked | {h.name for h in plan.harnesses if h.kind != "main"}
+
+
+def run_kani(plan, wdir, crate, tier, selected=None):
     out_json = os.path.join(wdir, "out.json")
     if os.path.exists(out_json):
         os.remove(out_json)
-    tmo = plan.timeout_s or (150 if tier == "quick" else 1200)
-    cmd = kani_cmd(plan, wdir, ["-j", str(JOBS), "--export-json", out_json, "--harness-timeout", str(tmo)])
+    tmo = plan.timeout_s or (300 if tier == "quick" else 1200)
+    extra = ["-j", str(JOBS), "--export-json", out_json, "--harness-timeout", str(tmo)]
+    if selected is not None:
+        for nme in sorted(selected):
+            extra += ["--harness", nme]   # substring match: a name that is a prefix of others selects those too (they are classified normally)
+    cmd = kani_cmd(plan, wdir, extra)
     log = os.path.join(wdir, "kani.log")
     # ulimit on address space so a blown-up CBMC instance dies instead of taking the machine down
     mem_kb = int(os.environ.get("VERIF_MEM_GB", MEM_GB_DEFAULT.get(tier, 12))) * 1024 * 1024
-    shcmd = "ulimit -v %d; exec %s" % (mem_kb, " ".join("'%s'" % c for c in cmd))
-    rc, out = sh(shcmd, cwd=crate, log=log, timeout=tmo * 40 + 3600)
+    script = os.path.join(wdir, "run_kani.sh")   # a file: thousands of --harness flags exceed the size limit of one `sh -c` argument
+    with open(script, "w") as f:
+        f.write("ulimit -v %d\nexec %s\n" % (mem_kb, " ".join("'%s'" % c for c in cmd)))
+    rc, out = sh(["sh", script], cwd=crate, log=log, timeout=tmo * 40 + 3600)
     res = None
     if os.path.exists(out_json):
         try:
@@ -399,7 +423,13 @@ def run_property(plan, tier, seed, t_start):
         write_evidence(plan, tier, seed, t_start, [], {}, inconclusive, violations, known_lines, pre_results)
         return 2
 
-    rc, out, res = run_kani(plan, wdir, crate, tier)
+    selected = select_budget(plan, tier, seed)
+    if selected is not None:
+        plan.bounds = dict(plan.bounds or {})
+        plan.bounds["thorough_budget"] = ("%d of the %d generated harnesses are decided in this run (even stride through the catalogue, rotated by "
+                                          "VERIF_SEED=%d; VERIF_THOROUGH_CAP=%d main harnesses + every twin); the others are outside this run's claim"
+                                          % (len(selected), len(plan.harnesses), seed, THOROUGH_CAP))
+    rc, out, res = run_kani(plan, wdir, crate, tier, selected)
     by = index_results(res)
     if res is None or not by:
         errs = re.findall(r"^error(?:\[E\d+\])?:.*(?:\n.*){0,6}", out, re.M)
@@ -429,6 +459,9 @@ def run_property(plan, tier, seed, t_start):
                 break
         row = {"harness": h.name, "kind": h.kind, "sample": h.sample}
         rows.append(row)
+        if (key is None or "status" not in by[key]) and selected is not None and h.name not in selected:
+            row["outcome"] = "not-run"
+            continue
         if key is None or "status" not in by[key]:
             row["outcome"] = "missing"
             if h.kind != "best_effort":
@@ -555,8 +588,11 @@ def run_property(plan, tier, seed, t_start):
         seen.add(key)
         print("KNOWN-FINDING: property=%s %s — %s" % (pid, key, what))
     held = sum(1 for r in rows if r.get("outcome") == "held")
+    n_notrun = sum(1 for r in rows if r.get("outcome") == "not-run")
+    if n_notrun:
+        print("[%s %s] thorough budget: %d generated harnesses not decided in this run (VERIF_THOROUGH_CAP=%d, VERIF_SEED rotates the selection)" % (pid, tier, n_notrun, THOROUGH_CAP))
     print("[%s %s] harnesses=%d held=%d sabotage_ok=%d known=%d undecided=%d violations=%d inconclusive=%d checks=%d solver=%.1fs wall=%.0fs" % (
-        pid, tier, len(rows), held, sum(1 for r in rows if r.get("outcome") == "failed-as-required"),
+        pid, tier, len(rows) - n_notrun, held, sum(1 for r in rows if r.get("outcome") == "failed-as-required"),
         len(seen), sum(1 for r in rows if r.get("outcome") == "undecided"), len(violations), len(inconclusive),
         total_checks, solver_s, time.time() - t_start))
     if violations:
@@ -594,6 +630,7 @@ def write_evidence(plan, tier, seed, t_start, rows, stats, inconclusive, violati
             "samples": [dict(harness=r["harness"], kind=r["kind"], outcome=r.get("outcome"), checks=r.get("checks"),
                              time_s=r.get("time_s"), **({"case": r["sample"]} if r.get("sample") else {})) for r in rows[:400]],
             "harnesses_total": len(rows),
+            "harnesses_generated_not_run": len([r for r in rows if r.get("outcome") == "not-run"]),
             "queries_discharged": stats.get("total_checks", 0),
             "solver_time_s": stats.get("solver_s", 0),
             "symex_time_s": stats.get("symex_s", 0),
